@@ -820,6 +820,10 @@ HandleFileUpload(rfbClientPtr cl, rfbTightClientPtr rtcp)
 
 	memset(&fileUploadErrMsg, 0, sizeof(FileTransferMsg));
 	
+	/* do not leak the descriptor of an upload that is still open */
+	if(rtcp->rcft.rcfu.uploadFD != -1)
+		close(rtcp->rcft.rcfu.uploadFD);
+
 	rtcp->rcft.rcfu.uploadInProgress = FALSE;
 	rtcp->rcft.rcfu.uploadFD = -1;
 
